@@ -17,6 +17,11 @@ var (
 
 	// ErrZeroFeeRateDelta is returned when the fee rate delta is zero.
 	ErrZeroFeeRateDelta = errors.New("fee rate delta is zero")
+
+	// ErrEstimateFeeRate is returned when the fee estimator fails to give
+	// the initial fee rate. This says nothing about the inputs being swept,
+	// so the caller is expected to try again later.
+	ErrEstimateFeeRate = errors.New("unable to estimate initial fee rate")
 )
 
 // mSatPerKWeight represents a fee rate in msat/kw.
@@ -151,7 +156,7 @@ func NewLinearFeeFunction(maxFeeRate chainfee.SatPerKWeight,
 			return l.estimateFeeRate(confTarget)
 		})
 	if err != nil {
-		return nil, fmt.Errorf("estimate initial fee rate: %w", err)
+		return nil, fmt.Errorf("%w: %w", ErrEstimateFeeRate, err)
 	}
 
 	// The caller-specified starting fee rate doesn't go through the fee
